@@ -18,6 +18,10 @@ C07 ops: lifting (model, `C` lines) and the judge of the library's lifted policy
                                           are refused (never shown as anything), `ERR:timelock`
                                           only when some spending path mixes units, and no policy
                                           is shown for a script with a satisfiable mixed path
+  J liftstate <ctx> <ast> <norm|age:A|lock:N> <policy>
+                                          the lifted policy after `normalized()` / `at_age(A)` /
+                                          `at_lock_time(N)`, judged against the script in the
+                                          worlds with nSequence = A resp. nLockTime = N
   J liftcompile <ctx|tr:U> <concrete policy> <lift(compile(policy))>
                                           same truth table over all assignments of the atoms (for
                                           `tr:U` with the unspendable internal key `U` unavailable)
@@ -175,6 +179,28 @@ def firstBad {α} (xs : List α) (f : α → Option String) : Option String :=
   match xs with
   | [] => none
   | x :: rest => match f x with | some s => some s | none => firstBad rest f
+
+/-- worlds with the transaction fields fixed as the policy restriction was taken for:
+`sq = some a` ↔ `at_age(a)`, `lt = some n` ↔ `at_lock_time(n)` -/
+def worldsFixed (ms : Ms) (lt sq : Option Nat) : List WorldSpec :=
+  let keys := ((keysOf ms).eraseDups).take 5
+  let pres := ((hashesOf ms).eraseDups).take 3
+  let lts := match lt with | some n => [n] | none => (lockTimes (locksOf ms).1).take 7
+  let sqs := match sq with | some a => [a] | none => (sequences (locksOf ms).2).take 7
+  (sublists keys).flatMap fun ks => (sublists pres).flatMap fun ps =>
+    lts.flatMap fun l => sqs.map fun q => ⟨ks, ps, l, q⟩
+
+/-- a policy derived from the lifted one (`normalized`, `at_age`, `at_lock_time`) still says
+exactly when the script is spendable - in the worlds the restriction was taken for -/
+def judgeState (ms : Ms) (lt sq : Option Nat) (pol : Policy) : String :=
+  match firstBad (worldsFixed ms lt sq) (fun w =>
+    let W := w.world
+    let ex := satEx (availOfWorld W) ms
+    let h := holds W pol
+    if h != ex then some s!"bad:{w.show}:policy-says-{h}-but-canonical-satisfaction-exists={ex}"
+    else none) with
+  | some s => s
+  | none => "ok"
 
 def judgeMs (t : Tables) (ctx : Ctx) (ms : Ms) (pol : Policy) : String :=
   match firstBad (worldsFor [ms] []) (fun w =>
@@ -338,6 +364,18 @@ def opsLift (t : Tables) (kind op : String) (args : List String) : Option String
     else match parsePolicy pol with
       | none => pure "bad:unparseable-policy"
       | some p => pure (judgeTree t ls p)
+  -- J liftstate <ctx> <ast> <norm | age:<nSequence> | lock:<nLockTime>> <policy>
+  | "J", "liftstate", [_ctx, ast, state, pol] => do
+    let ms ← parseAst ast
+    let (lt, sq) : Option Nat × Option Nat ← (match state.splitOn ":" with
+      | ["norm"] => some (none, none)
+      | ["age", a] => a.toNat?.map fun a => (none, some a)
+      | ["lock", n] => n.toNat?.map fun n => (some n, none)
+      | _ => none)
+    if pol == "PANIC" then pure "bad:panic"
+    else match parsePolicy pol with
+      | none => pure "bad:unparseable-policy"
+      | some p => pure (judgeState ms lt sq p)
   | "J", "liftrefusal", [_ctx, ast, ans] => do
     let ms ← parseAst ast
     pure (judgeRefusal ms ans)
